@@ -295,7 +295,16 @@ def run(chk):
             if not ok:
                 chk.finding(key + "|shadow-skip", rule="R-SHADOW", where="%s:%s" % (b.file, rt["line"]), fn=b.short(),
                             what="after vec.remove(i) the index is advanced before the element that moved into slot i was examined (every second shadowed image survives)")
-    chk.floor("R-ONCE", "shadow-removal sites", len(removes), 1)
+    # `retain` removes the shadowed images in one order-preserving pass (no index to skip); it counts as the removal site
+    retains = [(bi, t) for bi, t in b.calls() if (t["callee"].get("resolved") or "").endswith("Vec::<T, A>::retain") and t["args"] and is_list(eb.operand(t["args"][0]))]
+    if len(pushes) == 1:
+        for rbi, rt in retains:
+            ok = rbi not in b.reachable_from(pushes[0][0], avoid={innermost_loop(b, pops[0][0])[0]} if (pops and innermost_loop(b, pops[0][0])) else set())
+            chk.obligation(ok)
+            if not ok:
+                chk.finding(key + "|remove-after-push", rule="R-ONCE", where="%s:%s" % (b.file, rt["line"]), fn=b.short(),
+                            what="shadow removal (retain) can run after the new image was pushed")
+    chk.floor("R-ONCE", "shadow-removal sites", len(removes) + len(retains), 1)
     chk.sample("update_sixel_threads: %d front, %d is_finished, %d pop_front, %d join, %d push, %d remove" % (len(fronts), len(finished), len(pops), len(joins), len(pushes), len(removes)))
     arrival_order(chk, f, b)
     # ------------------------------------------------------------------ a decode that panics loses its image
